@@ -1000,12 +1000,13 @@ impl<'a, T: Clock, P: Props, F: Completion> SpanGuard<'a, T, P, F> {
     */
     pub fn with_completion<U: Completion>(mut self, completion: U) -> SpanGuard<'a, T, P, U> {
         // Ensure this guard won't complete on drop
-        self.completion.take();
+        // If the guard is disabled then the new one is too
+        let completion = self.completion.take().map(|_| completion);
 
         SpanGuard {
             state: self.state.take(),
             data: self.data.take(),
-            completion: Some(completion),
+            completion,
         }
     }
 
